@@ -21,6 +21,14 @@ class Findings(object):
                 return {k: v for k, v in e.items() if k != '_re'}
         return None
 
+    def match_any(self, signature):
+        """open entry of ANY property whose signature matches (used for Debug-only assertion findings, which
+        are the same root cause whichever property's check runs into them)"""
+        for e in self.entries:
+            if e.get('status') == 'open' and e['_re'] is not None and e['_re'].fullmatch(signature):
+                return {k: v for k, v in e.items() if k != '_re'}
+        return None
+
     def by_id(self, i):
         for e in self.entries:
             if e['id'] == i:
